@@ -5,3 +5,5 @@ CONSTANTS
   TailPatterns <- TailQuick
   LeadModes <- LeadInts
   TrailModes <- TrailInts
+INVARIANTS Accept Reject AllClausesSeen
+CHECK_DEADLOCK FALSE
